@@ -6,6 +6,7 @@ sys.path.insert(0, os.path.join(os.path.dirname(os.path.abspath(__file__)), ".."
 import vf
 import lanes
 import fpgen
+import sweep
 
 FT = [("f32", 4, 8, 23), ("f64", 8, 11, 52)]
 OPS = ["ceil", "floor", "trunc", "round", "nearbyint", "rint", "nearbyint_as_int", "to_int"]
@@ -50,6 +51,28 @@ def body(ctx):
     ctx.model("IEEECheck.tla", "IEEECheckQuick.cfg", timeout=1200)
     ctx.model("K_RoundGeneric.tla", timeout=1200)
     plan = lanes.replay_plan(ctx.replay) if ctx.replay else make_plan(ctx)
+    if not ctx.replay and not os.environ.get("VERIF_NO_SWEEP"):
+        # selector sweep: every float32 bit pattern (quick tier: every 128th, thorough: every 4th, offset by the seed; VERIF_SWEEP_STRIDE=1: all) and a seeded sample of double rows through
+        # every rounding function of every architecture, compared with the C library; a row with a disagreeing lane is appended to
+        # the plan (the best one of every binade) and judged by TLC.  "The exact rounding of every representable input" is thereby
+        # checked for every float32 input against libm and, where libm and xsimd disagree, by the specification.
+        refs = dict(ceil=("eq", "ceil"), floor=("eq", "floor"), trunc=("eq", "trunc"), round=("eq", "round"), nearbyint=("eq", "nearbyint"), rint=("eq", "rint"),
+                    nearbyint_as_int=("eqi", "nearbyint"), to_int=("eqi", "trunc"))
+        # one representative per kernel family (sse2 emulation, sse4.1 roundps, avx, avx512 roundscale, avx512dq conversions, scalar overloads, emulated)
+        for aset, archs in (("x86", ctx.q(["sse2", "sse4_1", "avx", "avx512f", "scalar"], ["sse2", "sse4_1", "avx", "avx2", "avx512f", "avx512dq", "scalar"])),
+                            ("emu", ["emulated<128>"])):
+            jobs = []
+            for ai, arch in enumerate(archs):
+                for op in OPS:
+                    if arch == "scalar" and op == "to_int":
+                        continue
+                    mode, ref = refs[op]
+                    stride = int(os.environ.get("VERIF_SWEEP_STRIDE", "0")) or ctx.q(128, 4)
+                    jobs.append(sweep.job("ew", op, "f32", arch, mode, ref, stride, ctx.seed * 17 + ai, 0, 0x7FFFFFFF, "+-"))
+                    jobs.append(sweep.job("ew", op, "f64", arch, mode, ref, ctx.q(4000, 200000), ctx.seed * 17 + ai, 1, 0x7FEFFFFFFFFFFFFF, "+-"))
+            srows, _info = sweep.run(ctx, "float", jobs, "c08sel_" + aset, archset=aset, keep=ctx.q(8, 32))
+            for r in srows:
+                plan.append("ew %s %s 0 %s - - -" % (r["op"], r["t"], sweep.hexrow(r, 4 if r["t"] == "f32" else 8)))
     ctx.log("plan: %d lines" % len(plan))
     events, plan = lanes.record(ctx, "float", plan, "c08")
     ctx.log("events: %d" % len(events))
